@@ -131,7 +131,28 @@ fn is_exact_source(m: &Value) -> bool {
     }
 }
 
+/// spec -> impl: traces generated by TLC (MCFromTrace) replayed for every prefix length
+fn replay_traces(ctx: &mut Ctx, path: &str) {
+    let text = std::fs::read_to_string(path).expect("traces file");
+    for line in text.lines().filter(|l| !l.trim().is_empty()) {
+        let v: Value = serde_json::from_str(line).expect("trace json");
+        let ev = us(&v["tr"]);
+        for k in 2..=ev.len() + 1 {
+            let pre = trace_prefix(&ev, k);
+            if pre.is_empty() || *pre.last().unwrap() == 0 {
+                continue;
+            }
+            let span = ev[ev.len() - 1];
+            ctx.call("curve_trace", json!({"ev": ev, "n": k, "H": 2 * span + 3, "from": "tlc"}), curve_trace_call);
+        }
+    }
+}
+
 pub fn run_c12(ctx: &mut Ctx) {
+    if let Some(path) = ctx.arg("--traces") {
+        replay_traces(ctx, &path);
+        return;
+    }
     // (a) every trace with <= nmax events and gaps 0..gmax, every prefix length
     let (nmax, gmax) = if ctx.thorough { (7usize, 4u64) } else { (5, 3) };
     let mut stack: Vec<Vec<u64>> = vec![vec![0]];
